@@ -295,7 +295,7 @@ psf_get_format_info (SF_FORMAT_INFO *data)
 double
 psf_calc_signal_max (SF_PRIVATE *psf, int normalize)
 {	BUF_UNION	ubuf ;
-	sf_count_t	position ;
+	sf_count_t	position, read_position ;
 	double 		max_val, temp, *data ;
 	int			k, len, readcount, save_state ;
 
@@ -314,8 +314,9 @@ psf_calc_signal_max (SF_PRIVATE *psf, int normalize)
 	sf_command ((SNDFILE*) psf, SFC_SET_NORM_DOUBLE, NULL, normalize) ;
 
 	/* Brute force. Read the whole file and find the biggest sample. */
-	/* Get current position in file */
-	position = sf_seek ((SNDFILE*) psf, 0, SEEK_CUR) ;
+	/* Get current position in file (a read/write handle has two) */
+	read_position = psf->read_current ;
+	position = (psf->file.mode == SFM_RDWR) ? psf->write_current : sf_seek ((SNDFILE*) psf, 0, SEEK_CUR) ;
 	/* Go to start of file. */
 	sf_seek ((SNDFILE*) psf, 0, SEEK_SET) ;
 
@@ -332,7 +333,12 @@ psf_calc_signal_max (SF_PRIVATE *psf, int normalize)
 		} ;
 
 	/* Return to SNDFILE to original state. */
-	sf_seek ((SNDFILE*) psf, position, SEEK_SET) ;
+	if (psf->file.mode == SFM_RDWR)
+	{	sf_seek ((SNDFILE*) psf, position, SEEK_SET | SFM_WRITE) ;
+		sf_seek ((SNDFILE*) psf, read_position, SEEK_SET | SFM_READ) ;
+		}
+	else
+		sf_seek ((SNDFILE*) psf, position, SEEK_SET) ;
 	sf_command ((SNDFILE*) psf, SFC_SET_NORM_DOUBLE, NULL, save_state) ;
 
 	return	max_val ;
@@ -341,7 +347,7 @@ psf_calc_signal_max (SF_PRIVATE *psf, int normalize)
 int
 psf_calc_max_all_channels (SF_PRIVATE *psf, double *peaks, int normalize)
 {	BUF_UNION	ubuf ;
-	sf_count_t	position ;
+	sf_count_t	position, read_position ;
 	double 		temp, *data ;
 	int			k, len, readcount, save_state ;
 	int			chan ;
@@ -359,7 +365,8 @@ psf_calc_max_all_channels (SF_PRIVATE *psf, double *peaks, int normalize)
 	memset (peaks, 0, sizeof (double) * psf->sf.channels) ;
 
 	/* Brute force. Read the whole file and find the biggest sample for each channel. */
-	position = sf_seek ((SNDFILE*) psf, 0, SEEK_CUR) ; /* Get current position in file */
+	read_position = psf->read_current ;
+	position = (psf->file.mode == SFM_RDWR) ? psf->write_current : sf_seek ((SNDFILE*) psf, 0, SEEK_CUR) ; /* Get current position in file */
 	sf_seek ((SNDFILE*) psf, 0, SEEK_SET) ;			/* Go to start of file. */
 
 	len = ARRAY_LEN (ubuf.dbuf) - (ARRAY_LEN (ubuf.dbuf) % psf->sf.channels) ;
@@ -377,7 +384,12 @@ psf_calc_max_all_channels (SF_PRIVATE *psf, double *peaks, int normalize)
 			} ;
 		} ;
 
-	sf_seek ((SNDFILE*) psf, position, SEEK_SET) ;		/* Return to original position. */
+	if (psf->file.mode == SFM_RDWR)
+	{	sf_seek ((SNDFILE*) psf, position, SEEK_SET | SFM_WRITE) ;
+		sf_seek ((SNDFILE*) psf, read_position, SEEK_SET | SFM_READ) ;
+		}
+	else
+		sf_seek ((SNDFILE*) psf, position, SEEK_SET) ;		/* Return to original position. */
 
 	sf_command ((SNDFILE*) psf, SFC_SET_NORM_DOUBLE, NULL, save_state) ;
 
